@@ -33,7 +33,7 @@ from vf.symx import Ctx, SymBool, SymInt  # noqa: E402
 PID = "C11"
 
 SAMPLE = '''
-from __future__ import annotations
+from __future__ import annotations, division, generator_stop
 import abc, enum, dataclasses
 from typing import (Any, Callable, ClassVar, Final, Generic, Literal, NamedTuple, NewType, Optional, overload,
                     ParamSpec, Protocol, TypedDict, TypeVar, TypeVarTuple, Union, Unpack, Iterator, Awaitable)
@@ -131,6 +131,12 @@ class SlotsChild(EmptySlots):
     __slots__ = ("a",)
     def __init__(self) -> None:
         self.a = 1
+class ThreeSlots:
+    __slots__ = ("s1", "s2", "s3")
+class ThreeKeys(TypedDict):
+    k1: int
+    k2: ReadOnly[int]
+    k3: ReadOnly[str]
 class EmptyTD(TypedDict):
     pass
 class ClosedTD(TypedDict, total=True):
@@ -499,6 +505,112 @@ def k2b_modules(rep: Report, tier: str) -> None:
         rep.candidate(key, f"{detail}", {"detail": detail}, replay_modules(detail[0] if detail else "sample"))
 
 
+class PermSet(set):
+    """A real set whose iteration order is the permutation the solver picked (a hash-seed stand-in for
+    one set object); sorted()/list()/for all go through __iter__."""
+
+    order: list = []
+
+    def __iter__(self) -> Any:
+        return iter(self.order)
+
+
+def k2c_set_order(rep: Report) -> None:
+    """Bytes written for a module must not depend on the iteration order of its set-valued fields
+    (MypyFile.future_import_flags, TypeInfo.slots, TypedDictType.required_keys / readonly_keys,
+    ExtraAttrs.immutable): for every such set of the sample module with >= 2 elements, every
+    permutation (chosen by the solver) must give the token stream and the JSON of the canonical run."""
+    import itertools
+
+    import mypy.build as B
+    from mypy import nodes as N
+    from mypy.modulefinder import BuildSource
+    from mypy.options import Options
+    from mypy.types import ExtraAttrs, Instance, TypedDictType, get_proper_type
+
+    o = Options()
+    o.incremental = False
+    o.cache_dir = os.devnull
+    o.python_version = (3, 12)
+    res = B.build([BuildSource(None, "sample", SAMPLE)], o)
+    tree = res.files["sample"]
+    targets: list = []
+    if len(tree.future_import_flags) >= 2:
+        targets.append((tree, "future_import_flags", "MypyFile.future_import_flags"))
+    for _, sym, _ in tree.local_definitions():
+        node = sym.node
+        if isinstance(node, N.TypeInfo):
+            if node.slots is not None and len(node.slots) >= 2:
+                targets.append((node, "slots", f"TypeInfo({node.name}).slots"))
+            td = node.typeddict_type
+            if isinstance(td, TypedDictType):
+                for attr in ("required_keys", "readonly_keys"):
+                    if len(getattr(td, attr)) >= 2:
+                        targets.append((td, attr, f"TypedDictType({node.name}).{attr}"))
+    found: dict = {}
+    canon_t = toks_of(tree)
+    canon_j = json.dumps(tree.serialize(), sort_keys=True)
+    tot = Ctx()
+    tot.exhausted = True
+    nperm = 0
+    for obj, attr, label in targets:
+        orig = getattr(obj, attr)
+        elems = sorted(orig)
+        perms = list(itertools.permutations(elems))
+        ctx = Ctx()
+
+        def body(c: Ctx, obj: Any = obj, attr: str = attr, label: str = label, perms: list = perms, orig: Any = orig) -> None:
+            ps = PermSet(orig)
+            ps.order = list(perms[c.choose("iteration_order", len(perms))])
+            setattr(obj, attr, ps)
+            try:
+                t = toks_of(tree)
+                j = json.dumps(tree.serialize(), sort_keys=True)
+            finally:
+                setattr(obj, attr, orig)
+            for what, a, b in (("binary", t, canon_t), ("JSON", j, canon_j)):
+                c.stats["assert_queries"] += 1
+                if a == b:
+                    c.stats["discharged"] += 1
+                else:
+                    c.stats["refuted"] += 1
+                    found.setdefault(f"{what} cache bytes depend on the iteration order of {label.split('(')[0]}{'.' + attr if '(' in label else ''}", (label, ps.order, what))
+
+        ctx.explore(body)
+        nperm += len(perms)
+        for k, v in ctx.stats.items():
+            if isinstance(v, (int, float)):
+                tot.stats[k] += v
+        tot.exhausted = tot.exhausted and ctx.exhausted
+    rep.add_ctx("K2c set-valued fields: serialized form independent of iteration order", tot, sets=[t[2] for t in targets], permutations=nperm)
+    rep.twin("K2c: set-valued fields with >= 2 elements found in the sample", len(targets) >= 3)
+    for key, (label, order, what) in found.items():
+        rep.sample({"kernel": "K2c", "class": key, "field": label, "order": order})
+
+        def replay(d: str, label: str = label, what: str = what) -> tuple[bool, str]:
+            # real runs under different hash seeds: the cache file of the sample must be byte-identical
+            import hashlib
+
+            with open(os.path.join(d, "sample.py"), "w") as f:
+                f.write(SAMPLE)
+            env = dict(os.environ)
+            env.pop("PYTHONPATH", None)
+            digests = set()
+            for seed in range(1, 13):
+                env["PYTHONHASHSEED"] = str(seed)
+                cd = os.path.join(d, f"cache{seed}")
+                flags = ["--no-sqlite-cache", "--cache-dir", cd, "--python-version", "3.12"] + ([] if what == "binary" else ["--no-fixed-format-cache"])
+                subprocess.run([sys.executable, "-m", "mypy"] + flags + ["sample.py"], cwd=d, env=env, capture_output=True, text=True, timeout=600)
+                for root, _, fs in os.walk(cd):
+                    for fn in fs:
+                        if fn.startswith("sample.data"):
+                            digests.add(hashlib.sha256(open(os.path.join(root, fn), "rb").read()).hexdigest()[:12])
+                shutil.rmtree(cd, ignore_errors=True)
+            return len(digests) > 1, f"{len(digests)} distinct sample.data.* files over 12 hash seeds ({what} format): {sorted(digests)[:4]}"
+
+        rep.candidate(key, f"{label} iterated as {order}", {"field": label, "order": order}, replay)
+
+
 REAL_RT = r'''
 # Round trip of real module interfaces through the REAL librt buffers and json, observed as the
 # property says: structural dump before serialization vs after load + fixup, both formats.
@@ -582,6 +694,9 @@ def main(args: Any) -> int:
         k2a_flat(rep)
     if only is None or "K2b" in only:
         k2b_modules(rep, args.tier)
+    if only is None or "K2c" in only:
+        k2c_set_order(rep)
+        rep.bounds.append("K2c: every permutation of every set-valued field (>= 2 elements) of the sample module, one field at a time")
     if only is None or "K1" in only:
         try:
             from vf import c11_codec
